@@ -118,6 +118,8 @@ def run_history(job):
     else:
         db, kw, nlen = make_case_db(scheme, cfg0, profile, rnd)
         cfg = se.fit(scheme, cfg0, profile, db)             # the caller's own dictionary
+        if scheme == "CGKO06.SSE2" and sd % 3 == 0:
+            cfg["param_n"] += 1 + sd % 2                     # a valid upper bound on the number of files, not the exact number
     meta = {"scheme": scheme, "gi": gi, "cfg": copy.deepcopy(cfg0), "p": list(profile), "seq": list(seq), "seed": sd, "byref": byref}
     cfg_copy, def_copy = copy.deepcopy(cfg), copy.deepcopy(defobj)
     ev = [{"e": "case", "scheme": scheme, "p": list(profile), "c": {}, "n": nlen,
